@@ -160,12 +160,14 @@ pub fn run(ctx: &Ctx) {
     add("key generate", "no password source at all (no tty)", &["key", "generate", "-o", "OUT"], vec![], Stdin::Bytes(b"joe\n".to_vec()), vec![], None);
 
     let wd = WorkDir::new("c13");
-    let total = cases.len() * 2;
-    ctx.note("matrix", json!({"cases": cases.len(), "prior_states": ["absent", "present with known content"], "executions": total}));
+    let total = cases.len() * 3;
+    ctx.note("matrix", json!({"cases": cases.len(), "prior_states": ["absent", "present with short known content", "present with 400 kB of known content"], "executions": total}));
     let wdp = &wd;
     par_for(total, crate::util::ncpu(), |j| {
-        let case = &cases[j / 2];
-        let present = j % 2 == 1;
+        let case = &cases[j / 3];
+        let present = j % 3 >= 1;
+        // third prior state: content LONGER than anything the command could write (a stale tail would show)
+        let long_prior: Vec<u8> = if j % 3 == 2 { (0..400_000u32).map(|i| (i % 251) as u8).collect() } else { PRIOR.to_vec() };
         let dir = wdp.path.join(format!("c{}", j));
         std::fs::create_dir_all(&dir).unwrap();
         for (name, bytes) in &case.files {
@@ -175,7 +177,7 @@ pub fn run(ctx: &Ctx) {
         // "input == output" needs the path to exist as the input: prior content is the input itself
         let uses_out_as_input = case.cause.contains("input == output");
         if present || uses_out_as_input {
-            std::fs::write(&out, PRIOR).unwrap();
+            std::fs::write(&out, &long_prior).unwrap();
         }
         let before = std::fs::metadata(&out).ok().map(|m| (m.ino(), m.len()));
         let before_bytes = std::fs::read(&out).ok();
@@ -188,7 +190,7 @@ pub fn run(ctx: &Ctx) {
         ctx.eval();
         let after_bytes = std::fs::read(&out).ok();
         let after = std::fs::metadata(&out).ok().map(|m| (m.ino(), m.len()));
-        let prior_state = if before_bytes.is_some() { "present" } else { "absent" };
+        let prior_state = if before_bytes.is_none() { "absent" } else if before_bytes.as_ref().unwrap().len() > 1000 { "present, 400 kB" } else { "present" };
         let detail = || {
             json!({"command": cmd.describe(), "cause": case.cause, "prior_state": prior_state, "exit": o.exit.describe(), "stderr": o.stderr_s(),
                    "output_before": before_bytes.as_ref().map(|b| hex_short(b, 40)), "output_after": after_bytes.as_ref().map(|b| hex_short(b, 40)), "output_after_len": after_bytes.as_ref().map(|b| b.len())})
